@@ -346,6 +346,11 @@ def run_history(sess, rng, fam, oracle, max_steps=None):
                 idle_polls = 0
         elif name == "report":
             keys = sorted(sess.inflight, key=repr)
+            if fam.get("lifecycle") and st in ("pausing", "paused"):
+                # a dormant (paused) action is not woken up while the workflow itself is held
+                keys = [k for k in keys if sess.last_reported.get(k) not in ("paused", "pending")]
+                if not keys:
+                    continue
             key = keys[rng.randrange(len(keys))]
             if rng.random() < fam["p_intermediate"]:
                 if fam.get("lifecycle"):
